@@ -158,6 +158,18 @@ Section W.
   Proof. intros H. unfold do_spawn. ws. Qed.
   Hint Resolve do_spawn_good : gdb.
 
+  Lemma drop_fn_state_good w i : WI pin w -> WI pin (drop_fn_state w i).
+  Proof. intros H. unfold drop_fn_state. ws. Qed.
+  Hint Resolve drop_fn_state_good : gdb.
+
+  Lemma new_fn_state_good w i : WI pin w -> WI pin (new_fn_state w i).
+  Proof. intros H. unfold new_fn_state. ws. Qed.
+  Hint Resolve new_fn_state_good : gdb.
+
+  Lemma end_block_task_good w i k : WI pin w -> WI pin (end_block_task w i k).
+  Proof. intros H. unfold end_block_task. ws. Qed.
+  Hint Resolve end_block_task_good : gdb.
+
   Lemma at_sim_start_good w i : WI pin w -> WI pin (at_sim_start w i).
   Proof. intros H. unfold at_sim_start. ws. Qed.
   Hint Resolve at_sim_start_good : gdb.
@@ -180,4 +192,4 @@ End W.
 
 #[export] Hint Resolve chan_send_good walk_good exit_conn_good register_timer_good poll_tasks_good ensure_rt_good activate_good
   deactivate_good fresh_msg_good do_schedule_good do_send_good do_spawn_good at_sim_start_good buf_process_good
-  handle_message_good take_field_good dispatch_good : gdb.
+  handle_message_good take_field_good dispatch_good drop_fn_state_good new_fn_state_good end_block_task_good : gdb.
